@@ -213,8 +213,8 @@ Print Assumptions C03_tags_to_text_is_source.
 Theorem C03_parse_line_is_source : forall o line,
   ImpGen.imp_sam_parseLine o line
   = match Bio.Model.Sam.parse_line o line with
-    | Ok r => GoSem.Ret (ImpProofsN.sam_of r, false)
-    | _ => GoSem.Ret (ImpProofsN.sam_zero, true)
+    | Ok r => GoSem.Ret (Some (ImpProofsN.sam_of r), false)
+    | _ => GoSem.Ret (None, true)
     end.
 Proof. exact ImpProofsN.imp_parseLine. Qed.
 Print Assumptions C03_parse_line_is_source.
@@ -231,12 +231,45 @@ Print Assumptions C03_split_tag_is_source.
 Example C03_source_parse_example :
   let o := {| f_parse := [(bs "1.5", bs "1.5")]; f_fmt := [] |} in
   ImpGen.imp_sam_parseLine o [bs "q"; bs "16"; bs "chr"; bs "7"; bs "60"; bs "3M"; bs "="; bs "9"; bs "-3"; bs "ACG"; bs "!!!"; bs "NM:i:2"; bs "XF:f:1.5"; bs "XA:A:c"]
-  = GoSem.Ret (ImpGen.Imp_sam_SAM (bs "q") 16 (bs "chr") 7 60 (bs "3M") (bs "=") 9 (-3) (bs "ACG") (bs "!!!")
-      [(bs "NM", GoSem.AnyInt 2); (bs "XF", GoSem.AnyFloat (bs "1.5")); (bs "XA", GoSem.AnyByte 99)], false)
-  /\ ImpGen.imp_sam_parseLine o [bs "q"; bs "16"] = GoSem.Ret (ImpProofsN.sam_zero, true).
+  = GoSem.Ret (Some (ImpGen.Imp_sam_SAM (bs "q") 16 (bs "chr") 7 60 (bs "3M") (bs "=") 9 (-3) (bs "ACG") (bs "!!!")
+      [(bs "NM", GoSem.AnyInt 2); (bs "XF", GoSem.AnyFloat (bs "1.5")); (bs "XA", GoSem.AnyByte 99)]), false)
+  /\ ImpGen.imp_sam_parseLine o [bs "q"; bs "16"] = GoSem.Ret (None, true).
 Proof. vm_compute. split; reflexivity. Qed.
 
 Theorem C03_marshal_is_source : forall o r,
   ImpGen.imp_sam_SAM_MarshalText o (ImpProofsN.sam_of r) = GoSem.Ret (Bio.Model.Sam.write o r, false).
 Proof. exact ImpProofsN.imp_SAM_MarshalText. Qed.
 Print Assumptions C03_marshal_is_source.
+
+(* ---- the readers of iter.go ------------------------------------------------------------------------
+   ReaderHeader and Reader as translated on this run (a *SAM / *string that may be nil is an option;
+   parseLine, translated in the same package with plain errors, returns None exactly with an error).
+   To a consumer that never stops they yield exactly the items of the model's reader_header / reader
+   — header entries, records, one error item per bad line, a final error item on a read error, the
+   unterminated last line on EOF — for every input, every float oracle and both terminal
+   conditions.  This composes ReadString, the two TrimSuffix calls, the '@' test, strings.Split,
+   the translated parseLine (with parseInts, parseTags, splitTag) and Reader's nil test on sh.S. *)
+From Bio.Proofs Require ImpProofsJ ImpProofsQ.
+
+Theorem C03_reader_header_is_source : forall o t fuel s, (length s + 1 < fuel)%nat ->
+  exists st, ImpGen.imp_samrd_ReaderHeader fuel o (GoSem.Stream s (ImpProofsJ.term_code t) None)
+             = GoSem.Ret (st, map ImpProofsQ.sh_item (Bio.Model.Sam.reader_header o s t)).
+Proof. exact ImpProofsQ.imp_sam_ReaderHeader_ok. Qed.
+Print Assumptions C03_reader_header_is_source.
+
+Theorem C03_reader_is_source : forall o t fuel s, (length s + 1 < fuel)%nat ->
+  exists st, ImpGen.imp_samrd_Reader fuel o (GoSem.Stream s (ImpProofsJ.term_code t) None)
+             = GoSem.Ret (st, map ImpProofsQ.sr_item (Bio.Model.Sam.reader o s t)).
+Proof. exact ImpProofsQ.imp_sam_Reader_ok. Qed.
+Print Assumptions C03_reader_is_source.
+
+Example C03_source_reader_example :
+  let o := {| f_parse := []; f_fmt := [] |} in
+  ImpGen.imp_samrd_Reader 200 o
+    (GoSem.Stream (bs "@HD" ++ [13; 10] ++ bs "q" ++ [9] ++ bs "x" ++ [10; 10]
+                   ++ bs "q" ++ [9] ++ bs "0" ++ [9] ++ bs "c" ++ [9] ++ bs "1" ++ [9] ++ bs "2" ++ [9] ++ bs "*" ++ [9]
+                   ++ bs "=" ++ [9] ++ bs "3" ++ [9] ++ bs "4" ++ [9] ++ bs "A" ++ [9] ++ bs "!")%N 1%Z None)
+  = GoSem.Ret (GoSem.Stream [] 1%Z None,
+               [(None, 2%Z);
+                (Some (ImpGen.Imp_sam_SAM (bs "q") 0 (bs "c") 1 2 (bs "*") (bs "=") 3 4 (bs "A") (bs "!") []), 0%Z)]).
+Proof. vm_compute. reflexivity. Qed.
